@@ -191,7 +191,10 @@ def run_shard(sink, tier, seed, shard):
     for idx in range(i0, n_trees, step):
         c = harness.make_case('c04', seed, idx, profile=['mixed', 'custom', 'dicts', 'seq', 'plain', 'custom', 'wide'][idx % 7])
         for o in harness.opts_for(idx, k, opts):
-            sink.guard('harness', 'case', dict(c.ident(), opt=repr(o)), lambda: check_case(sink, c, o))
+            with harness.reentrant(idx % 8 == 0):  # an eighth of the cases with callbacks that call back into optree
+                sink.guard('harness', 'case', dict(c.ident(), opt=repr(o)), lambda: check_case(sink, c, o))
+            if idx % 8 == 0:
+                sink.count('cases-with-re-entrant-callbacks')
 
 
 def finalize(sink, tier, seed):
